@@ -86,6 +86,18 @@ func NewArg(x value.Value, attrs ...ParamAttribute) *Arg {
 	return &Arg{Value: x, Attrs: attrs}
 }
 
+// calleeAddrSpace returns the address space of the function pointer type of
+// the given callee (0 if the callee is not of pointer type).
+func calleeAddrSpace(callee value.Value) types.AddrSpace {
+	if callee == nil {
+		return 0
+	}
+	if t, ok := callee.Type().(*types.PointerType); ok {
+		return t.AddrSpace
+	}
+	return 0
+}
+
 // argOperand returns the operand slot of a call argument: the value inside an
 // argument that carries parameter attributes (*Arg), so that the value used is
 // the one the slot exposes, and the argument itself otherwise.
